@@ -730,7 +730,20 @@ def inject_fault(rng, spec, q, kind):
         return with_item(rng.choice(["st.in.zz", "st.in[0]", "st[0].in", "st.in.e.x", "st.zz.e", "in.zz", "st.in.e[9][9][9]", "st.in[0].e",
                                      "st.p.e", "in[0]", "st.in.", "st..e", "st.in.e[99]", "g.v.x", "s.i.j", "st.in.h[0:1:0]", "zz.in.e"]))
     if kind == "operand-type":
-        return with_sel(sc + rng.choice(['>"x"', ">abc", ">1.5", "=" + a, ">", "=[1]", "<" + sn, '="1"', ">None", ">1e400"]))
+        bad = sc + rng.choice(['>"x"', ">abc", ">1.5", "=" + a, ">", "=[1]", "<" + sn, '="1"', ">None", ">1e400"])
+        if s and s["rows"] and rng.random() < 0.5:
+            # an earlier, well-typed clause that the FIRST record does not pass, then the ill-typed one (and the reverse
+            # order): a lazy sequence has to notice the second clause although the first record never reaches it
+            ci = rng.randrange(len(s["cols"]))
+            v0 = s["rows"][0][ci]
+            lit = '"%s"' % v0 if s["cols"][ci][1] == "U" else str(v0)
+            # (some record must pass the first clause: on an EMPTY intermediate selection numpy still evaluates the
+            #  ill-typed comparison and raises, the row-wise handler model does not - an error-ordering corner the
+            #  model does not carry)
+            if re.fullmatch(r'[A-Za-z0-9_.\-"]*', lit) and any(r_[ci] != v0 for r_ in s["rows"]):
+                good = "%s.%s!=%s" % (sn, s["cols"][ci][0], lit)
+                return sn + "&" + (good + "&" + bad if rng.random() < 0.7 else bad + "&" + good)
+        return with_sel(bad)
     if kind == "bad-operator":
         return with_sel(sc + rng.choice([">>1", "=~1", "~1", "><1", "=!1", "==1", "=<1", "<>1", "!1", "=>1", "!==1", "<=>1"]))
     if kind == "percent":
